@@ -2,7 +2,7 @@ SPECIFICATION Spec
 VIEW StateView
 CHECK_DEADLOCK FALSE
 CONSTANTS
-  Paths <- MCPaths
+  Paths <- MCPathsQ
   Names = {"a", "b"}
   MaxDepth = 2
   NLower = 2
@@ -10,5 +10,5 @@ CONSTANTS
   HasUpper = FALSE
   Known = {}
   UpperTypes = {"none"}
-  LowerTypes = {"none", "file", "dir", "odir", "wh", "sym"}
+  LowerTypes = {"none", "file", "dir", "wh"}
 INVARIANTS LoadAgrees LiveIsView StatusAgrees RestartSame LowersFrozen
